@@ -2,6 +2,7 @@
 //! the contents (+ padding) and yields exactly the pushed elements (reversed for the rev variant).
 //! Shapes are concrete per harness (filler size, reserved capacity, number of pushes => whether and where the fill
 //! outgrows the 16-byte chunk); element values are symbolic. The budget is granted just in time (DESIGN.md 2.5).
+use crate::check;
 use crate::common::*;
 use bump_scope::alloc::Allocator;
 use bump_scope::settings::BumpAllocatorSettings;
@@ -41,7 +42,7 @@ macro_rules! mutvec_body {
             set_budget(create_budget);
             let Ok(mut v) = $Vec::<T, _>::try_with_capacity_in(CAP0, &mut *bump) else { return };
             set_budget(0);
-            assert!(v.capacity() >= CAP0, "C08: capacity smaller than what with_capacity promised");
+            check!(v.capacity() >= CAP0, "C08: capacity smaller than what with_capacity promised");
             let mut k = 0;
             while k < 5 {
                 if k < K {
@@ -56,8 +57,8 @@ macro_rules! mutvec_body {
                     // during filling the position of the original chunk does not move
                     let s = v.allocator_stats();
                     let mut it = s.small_to_big();
-                    assert!(addr(it.next().unwrap().bump_position()) == pos1, "C15: bump position moved while an exclusive-borrow collection was being filled");
-                    assert!(v.len() == k + 1 && v.capacity() >= v.len(), "C08: len/capacity while filling");
+                    check!(addr(it.next().unwrap().bump_position()) == pos1, "C15: bump position moved while an exclusive-borrow collection was being filled");
+                    check!(v.len() == k + 1 && v.capacity() >= v.len(), "C08: len/capacity while filling");
                 }
                 k += 1;
             }
@@ -66,7 +67,7 @@ macro_rules! mutvec_body {
             while j < 5 {
                 if j < K {
                     let want = if $rev { vals[K - 1 - j] } else { vals[j] };
-                    assert!(v[j] == want, "C15/C08: contents differ from the pushed elements");
+                    check!(v[j] == want, "C15/C08: contents differ from the pushed elements");
                 }
                 j += 1;
             }
@@ -76,37 +77,37 @@ macro_rules! mutvec_body {
             if FINAL {
                 let b = v.into_boxed_slice();
                 let (p, n) = (b.as_ptr() as usize, b.len());
-                assert!(n == K, "C15: finalised slice has the wrong length");
+                check!(n == K, "C15: finalised slice has the wrong length");
                 let mut j = 0;
                 while j < 5 {
                     if j < K {
                         let want = if $rev { vals[K - 1 - j] } else { vals[j] };
-                        assert!(b[j] == want, "C15: finalised slice differs from the pushed elements");
+                        check!(b[j] == want, "C15: finalised slice differs from the pushed elements");
                     }
                     j += 1;
                 }
                 core::mem::forget(b);
                 let sz = core::mem::size_of::<T>();
                 let al = core::mem::align_of::<T>();
-                assert!(p % al == 0, "C15/C01: finalised slice misaligned");
+                check!(p % al == 0, "C15/C01: finalised slice misaligned");
                 // the position advanced by the contents plus at most alignment padding
                 let cur = bump.stats().current_chunk().unwrap();
                 // in the chunk the slice ended up in: same chunk => relative to what was allocated before; a later chunk was empty
                 let grown = if addr(cur.chunk_start()) == chunk_cur0 { cur.allocated() - alloc0 } else { cur.allocated() };
                 let pad_max = (al - 1) + (St::MIN_ALIGN - 1);
-                assert!(grown >= K * sz && grown <= K * sz + pad_max, "C15: finalising advanced the position by more than contents + padding");
-                assert!(addr(cur.bump_position()) % St::MIN_ALIGN == 0, "C10: position not min-aligned after finalising");
+                check!(grown >= K * sz && grown <= K * sz + pad_max, "C15: finalising advanced the position by more than contents + padding");
+                check!(addr(cur.bump_position()) % St::MIN_ALIGN == 0, "C10: position not min-aligned after finalising");
                 // the block lies in the allocated part of the current chunk
                 let (cs, ce) = (addr(cur.content_start()), addr(cur.content_end()));
-                assert!(p >= cs && p + K * sz <= ce, "C15/C01: finalised slice outside the current chunk");
+                check!(p >= cs && p + K * sz <= ce, "C15/C01: finalised slice outside the current chunk");
             } else {
                 drop(v);
-                assert!(chunk1_pos(&*bump) == pos1, "C15: dropping an exclusive-borrow collection moved the bump position");
+                check!(chunk1_pos(&*bump) == pos1, "C15: dropping an exclusive-borrow collection moved the bump position");
                 let cur = bump.stats().current_chunk().unwrap();
                 if addr(cur.chunk_start()) != chunk_cur0 {
-                    assert!(cur.allocated() == 0, "C15: after dropping the collection the current chunk is a later one that is not empty");
+                    check!(cur.allocated() == 0, "C15: after dropping the collection the current chunk is a later one that is not empty");
                 } else {
-                    assert!(bump.stats().allocated() == alloc0, "C15: dropping the collection changed the allocated byte count");
+                    check!(bump.stats().allocated() == alloc0, "C15: dropping the collection changed the allocated byte count");
                 }
             }
                     kani::cover!(true, "END: harness ran to completion");
